@@ -131,6 +131,11 @@ func bVectors() []string {
 		{uint(1), uint(2)}, {uint(9), uint(2)}, {uint64(1), uint64(1 << 63)}, {int64(-1), int64(1)}, {int64(7), int64(7)},
 		{[]byte{1}, []byte{1, 0}}, {[]byte{2}, []byte{1, 9}}, {[]byte{}, []byte{}},
 		{struct{ A int }{1}, struct{ A int }{2}}, {struct{ A int }{10}, struct{ A int }{9}},
+		{int32(9), int32(10)}, {int32(10), int32(9)}, {int32(-1), int32(-2)}, {int32(-2), int32(1)}, {int32(5), int32(5)},
+		{int8(9), int8(10)}, {int8(-1), int8(-2)}, {int16(9), int16(10)}, {int16(-100), int16(99)},
+		{uint8(9), uint8(10)}, {uint8(200), uint8(3)}, {uint16(9), uint16(10)}, {uint16(1000), uint16(999)},
+		{uint32(9), uint32(10)}, {uint32(10), uint32(9)}, {float64(1.5), float64(10)}, {float64(2), float64(10)}, {float32(-1), float32(-2)},
+		{true, false}, {false, true},
 	}
 	for _, p := range pairs {
 		c, err := cmp(p[0], p[1])
